@@ -1,4 +1,9 @@
 import Toodee.Spec.Inv
+import Toodee.Spec.IterAbs
+import Toodee.Proofs.IterLemmas
+import Toodee.Proofs.MemLemmas
+import Toodee.Proofs.CellsLemmas
+import Toodee.Proofs.CopyLemmas
 /-
   C20 — Constructors and conversions preserve contents and reject bad shapes.
 
@@ -129,5 +134,87 @@ example : shapeOk 3 2 ∧ ¬ shapeOk 5 0 ∧ ¬ shapeOk 4294967296 4294967296 :=
 example : TD.fromVec 3 2 [1, 2, 3, 4, 5, 6] = .ok ⟨[1, 2, 3, 4, 5, 6], 2, 3⟩ := by
   simp [TD.fromVec, TD.zeroRuleOk, cmul, WORD]
 example : TD.new 5 0 (0 : Nat) = .error .panic := by simp [TD.new, TD.zeroRuleOk]
+
+/-- a slice of the buffer, cell by cell -/
+theorem take_drop_eq_filterMap (l : List α) (a k : Nat) :
+    (l.drop a).take k = (List.range k).filterMap fun c => l[a + c]? := by
+  induction k with
+  | zero => simp
+  | succ k ih =>
+    rw [List.take_add_one, ih, List.range_succ, List.filterMap_append, List.getElem?_drop]
+    cases hk : l[a + k]? <;> simp [hk]
+
+/-- cell `c` of row `i` of a list of rows of equal length -/
+theorem getElem?_flatten_uniform (C : Nat) (l : List (List α)) (hl : ∀ r ∈ l, r.length = C) (i c : Nat)
+    (hc : c < C) : l.flatten[i * C + c]? = (l[i]?).bind (·[c]?) := by
+  induction l generalizing i with
+  | nil => simp
+  | cons a l ih =>
+    have h1 : a.length = C := hl a (by simp)
+    cases i with
+    | zero =>
+      simp only [List.flatten_cons, Nat.zero_mul, Nat.zero_add, List.getElem?_cons_zero, Option.bind_some]
+      exact List.getElem?_append_left (by omega)
+    | succ i =>
+      have h2 := ih (fun r hr => hl r (by simp [hr])) i
+      have e : (i + 1) * C + c = a.length + (i * C + c) := by rw [Nat.add_mul, h1]; omega
+      rw [List.flatten_cons, e, List.getElem?_append_right (Nat.le_add_right _ _), Nat.add_sub_cancel_left, h2]
+      simp
+
+/-- `From<view>` / `From<view_mut>`: exactly the view's dimensions, the shape invariant, and the viewed cells in row-major order -/
+theorem C20_from_view (m : Mode) (v : VW) (buf : List α) (h : v.Inv buf.length) :
+    ∃ t, v.toOwned m buf = .ok t ∧ t.Inv ∧ t.numCols = v.numCols ∧ t.numRows = v.numRows ∧
+      t.data = ((List.range v.numRows).map fun r => (List.range v.numCols).filterMap fun c => buf[v.pos c r]?).flatten ∧
+      ∀ c r, c < v.numCols → r < v.numRows → t.data[t.pos c r]? = buf[v.pos c r]? := by
+  obtain ⟨it, hrows, hWF, hitv, _, _, habs⟩ := VW.rows_WF m v buf.length h
+  have harea := h.area_le
+  have hin := h.inside
+  have hword := h.word
+  have hmul : v.numCols * v.numRows < WORD := by omega
+  -- enough fuel: there are at most `len` rows
+  have hfuel : v.numRows < it.v.len + 2 := by
+    rw [hitv]
+    by_cases hR : v.numRows = 0
+    · omega
+    · have hC : 0 < v.numCols := by have := h.zero; omega
+      have : 1 * v.numRows ≤ v.numCols * v.numRows := Nat.mul_le_mul_right _ hC
+      omega
+  have hcol := Rows.collect_spec hWF (it.v.len + 2) hfuel
+  rw [habs] at hcol
+  -- the rows copied out
+  have hrow : ∀ r, (buf.drop (v.pos 0 r)).take v.numCols =
+      (List.range v.numCols).filterMap fun c => buf[v.pos c r]? := by
+    intro r
+    rw [take_drop_eq_filterMap]
+    simp only [VW.pos_zero_add]
+  have hdata : (((List.range v.numRows).map fun r => (⟨v.pos 0 r, v.numCols⟩ : Win)).map
+        fun w => (buf.drop w.off).take w.len) =
+      (List.range v.numRows).map fun r => (List.range v.numCols).filterMap fun c => buf[v.pos c r]? := by
+    rw [List.map_map]
+    apply List.map_congr_left
+    intro r _
+    exact hrow r
+  have hlenrow : ∀ x ∈ ((List.range v.numRows).map fun r =>
+      (List.range v.numCols).filterMap fun c => buf[v.pos c r]?), x.length = v.numCols := by
+    intro x hx
+    obtain ⟨r, hr, rfl⟩ := List.mem_map.1 hx
+    rw [← hrow r, List.length_take, List.length_drop]
+    have := h.seg_inside (c := 0) (w := v.numCols) (List.mem_range.1 hr) (by omega)
+    omega
+  have hlen := flatten_length_uniform v.numCols _ hlenrow
+  rw [List.length_map, List.length_range] at hlen
+  refine ⟨⟨((List.range v.numRows).map fun r =>
+      (List.range v.numCols).filterMap fun c => buf[v.pos c r]?).flatten, v.numRows, v.numCols⟩,
+    ?_, ⟨?_, h.zero, ?_⟩, rfl, rfl, rfl, ?_⟩
+  · simp only [VW.toOwned, umul_ok m _ _ hmul, hrows, hcol, ok_bind, pure_eq, hdata]
+  · show (List.flatten _).length = _
+    rw [hlen, Nat.mul_comm]
+  · show (List.flatten _).length < _
+    rw [hlen, Nat.mul_comm]; exact hmul
+  · intro c r hc hr
+    show (List.flatten _)[r * v.numCols + c]? = _
+    rw [getElem?_flatten_uniform v.numCols _ hlenrow r c hc]
+    rw [List.getElem?_map, List.getElem?_range hr, Option.map_some, Option.bind_some, ← hrow r,
+      List.getElem?_take_of_lt hc, List.getElem?_drop, VW.pos_zero_add]
 
 end Toodee
